@@ -278,6 +278,17 @@ def plan_c20(tier, seed):
     return plan
 
 
+def plan_c12(tier, seed):
+    """find() from every view root x every query is quadratic in the query universe: the full U3 exploration
+    (7 M states) is replaced by canonical U3 in the thorough tier"""
+    p = e1_plan(["find"], [], quick_types=REP7, kinds=("map",))(tier, seed)
+    if tier == "thorough":
+        p["runs"] = [r for r in p["runs"] if not (r.get("universe") == "U3" and r.get("alpha") == "structural") and not r.get("layout")]
+        p["runs"] += grid(["map"], ["u8"], ["U3"], ["hi"], "canonical", ["find"], threads=16, retain_all=False)
+        p["runs"] += grid(["map"], ["u8"], ["U3half"], ["hi"], "structural", ["find"], threads=16, retain_all=False)
+    return p
+
+
 def plan_c11(tier, seed):
     p = e1_plan(["views"], ["views"], canonical_obs=["views"])(tier, seed)
     # views obtained by find() from every view root are views like any other (value, sides)
@@ -304,7 +315,7 @@ PLANS = {
     "C09": e1_plan(["cover"], ["lookups"]),
     "C10": e1_plan(["children"], ["lookups"], alpha="full"),
     "C11": plan_c11,
-    "C12": e1_plan(["find"], [], quick_types=REP7, kinds=("map",)),
+    "C12": plan_c12,
     "C15": e1_plan(["wf"], [], alpha="full", canonical_obs=["wf"], kinds=("map",)),
 }
 
